@@ -1144,6 +1144,28 @@ fn main2() {
         } else {
             // the checker took the process down (stack overflow / abort / hang) on case `started`
             let k = started.unwrap_or(done);
+            if let gv::child::Exit::Timeout(_) = &ex {
+                // a watchdog timeout may just be a loaded machine: retry this one case alone with
+                // a 4x budget before calling it a hang
+                let (ks, k1s) = (k.to_string(), (k + 1).to_string());
+                let ex2 = gv::child::run(
+                    &["--tier", &args.tier, "--seed", &seed_s, "--out", args.out.to_str().unwrap(), "--child", &ks, &k1s],
+                    b"",
+                    std::time::Duration::from_secs(80),
+                );
+                if let gv::child::Exit::Ok(text2) = &ex2 {
+                    for line in text2.lines() {
+                        if let Some(r) = line.strip_prefix("CASE ") {
+                            if let Ok(j) = serde_json::from_str::<serde_json::Value>(r) {
+                                CaseRec::emit(&j, &mut out);
+                            }
+                        }
+                    }
+                    out.count("watchdog-retry-ok");
+                    lo = k + 1;
+                    continue;
+                }
+            }
             let (e, style, _) = &cases[k.min(cases.len() - 1)];
             let src = program(e, *style);
             let w = refw::infer_program(e);
